@@ -31,7 +31,8 @@ def enc_elem(e):
 
 def enc_handler(h):
     return lp([h.get("stages", 1), h.get("xkind", 0), h.get("xa", 0), h.get("xb", 0), h.get("xc", 0)]
-              + enc_emits(h.get("start", [])) + enc_emits(h.get("msg", [])) + enc_emits(h.get("end", [])) + enc_emits(h.get("task", [])))
+              + enc_emits(h.get("start", [])) + enc_emits(h.get("msg", [])) + enc_emits(h.get("end", [])) + enc_emits(h.get("task", []))
+              + ([h.get("pf", 0), h.get("pst", 0), h.get("psince", 0)] if h.get("pf", 0) or h.get("pst", 0) or h.get("psince", 0) else []))
 
 
 def enc_mod(m):
@@ -98,6 +99,7 @@ def dec_handler(b):
     h = {"stages": c.next() % 4, "xkind": c.next() % 4, "xa": c.next(), "xb": c.next(), "xc": c.next()}
     for f in ("start", "msg", "end", "task"):
         h[f] = triples(c.take_lp())
+    h["pf"] = c.next(); h["pst"] = c.next(); h["psince"] = c.next()
     return h
 
 
@@ -169,8 +171,10 @@ def pretty(script):
     s = "budget=%d global=[%s]" % (d["budget"], "; ".join(pretty_elem(e) for e in d["global"]))
     for m, mod in enumerate(d["mods"]):
         h = mod["h"]
-        x = {0: "", 1: " timer(%d)" % (h["xa"] + 1), 2: " shutdown(on %d%s)" % (h["xa"], ", restart in %d" % h["xc"] if h["xb"] % 2 else ""),
-             3: " caught-panic(%s)" % {0: "handle_message of %d" % h["xa"], 1: "at_sim_start(%d)" % h["xa"], 2: "at_sim_end"}[h["xb"] % 3]}[h["xkind"]]
+        x = {0: "", 1: " timer(%d)" % (h["xa"] + 1), 2: " shutdown(on %d%s)%s" % (h["xa"], ", restart in %d" % h["xc"] if h["xb"] % 2 else "",
+                                          " caught-panic(at_sim_start(%d) from t=%d)" % (h["pst"], h["psince"]) if h.get("pf", 0) % 2 else ""),
+             3: " caught-panic(%s%s)" % ({0: "handle_message of %d" % h["xa"], 1: "at_sim_start(%d)" % h["xa"], 2: "at_sim_end"}[h["xb"] % 3],
+                                          " from t=%d" % h["xc"] if h["xc"] else "")}[h["xkind"]]
         em = " ".join("%s!%d" % (f, len(h[f])) for f in ("start", "msg", "end", "task") if h[f])
         s += " | mod%d mode=%d own=[%s] stages=%d%s %s" % (m, mod["mode"], "; ".join(pretty_elem(e) for e in mod["own"]), h["stages"], x, em)
     s += " | inject " + " ".join("%s->%d@%d(id%d)" % ("direct" if k else "port", dst, t, x) for k, dst, t, x in d["inj"])
